@@ -225,7 +225,14 @@ Inductive op :=
        (* two transfers A, B that BOTH finish load_model on the same state before either goes on
           (handler, compile, save in any interleaving of whole steps); lastb: B's save is the later one.
           Outputs: A, B. *)
-| Reader2 (o : nat) (eofx ea eb : bool) (j : nat).
+| Reader2 (o : nat) (eofx ea eb : bool) (j : nat)
+| Gap (o : nat) (e : bool) (late savedfirst : bool).
+       (* a caller A (options o) overlaps a codegen-mode writer B with other options that rejects the cache
+          file, removes it first thing in save_model (api.py, since ee3ded2) and is then killed while it builds
+          its libraries.  late = false: the removal falls before A opens the file (before A starts, or in the
+          gap between A's existence/mtime test and its open: the same FileNotFoundError class either way);
+          late = true: A had finished load_model before the removal (savedfirst: even its save, if any).
+          Outputs: A, B (= Died). *)
        (* Reader with two such readers (same options) at write step j.  Outputs: A, B, writer. *)
        (* a writer transfer has done j write steps when a second transfer (same options) runs to
           completion in the same folder; then the writer finishes.  Outputs: reader, writer. *)
@@ -248,6 +255,13 @@ Definition two (t : tables) (w : world) (oa ob : nat) (ea eb lastb : bool) : wor
    | false, true => full_write w ob
    | false, false => w
    end, [ra; rb]).
+
+Definition gap (t : tables) (w : world) (o : nat) (e : bool) (late sf : bool) : world * list outcome :=
+  if late then
+    let (r, wr) := decide t w o e in
+    ((if wr && negb sf then full_write w o else set_cfile w None), [r; Died])
+  else
+    let (w', r) := transfer t (set_cfile w None) o e in (w', [r; Died]).
 
 Definition step_op (t : tables) (w : world) (p : op) : world * list outcome :=
   match p with
@@ -277,6 +291,7 @@ Definition step_op (t : tables) (w : world) (p : op) : world * list outcome :=
             (full_write w o, rs ++ [Recompiled (src w, o)])
           else let (w', rs) := two t w o o ea eb true in (w', rs ++ [Raised x])
       end
+  | Gap o e late sf => gap t w o e late sf
   end.
 
 Fixpoint run_ops (t : tables) (w : world) (h : list op) : list (list outcome) :=
